@@ -7,6 +7,7 @@ import re
 import shutil
 import subprocess
 import sys
+import concurrent.futures
 
 sys.path.insert(0, os.path.dirname(os.path.abspath(__file__)))
 from common import *  # noqa
@@ -469,6 +470,374 @@ def type_sweep_projects(rng, start, tier):
     return out
 
 
+# ---------------------------------------------------------------- several controllers in one project
+
+# A full path is a list of segments; a controller mounts its receivers under a prefix of it (its @Route) and every
+# receiver carries the rest.  Two full paths with the same verb that can match the same request "collide on" the first
+# segment they differ in.  Where that segment lies - in both receivers' parts, inside the prefix of one controller,
+# inside the prefixes of both - depends on the depths the two controllers are mounted at.
+PATH_FAMILIES = [
+    # (name, full path A, full path B, index of the colliding segment or None for a duplicate / no collision)
+    ("param-vs-literal", ["users", "{id}", "posts"], ["users", "me", "posts"], 1),
+    ("param-vs-param", ["users", "{id}"], ["users", "{name}"], 1),
+    ("first-segment", ["{id}", "posts"], ["me", "posts"], 0),
+    ("duplicate", ["users", "me", "posts"], ["users", "me", "posts"], None),
+    ("deep", ["v1", "users", "{id}", "posts"], ["v1", "users", "me", "posts"], 2),
+    ("last-segment", ["users", "me", "{id}"], ["users", "me", "all"], 2),
+    ("disjoint", ["users", "me", "posts"], ["users", "me", "likes"], None),
+]
+SLASH_STYLES = ["lead", "lead", "lead", "bare", "trail", "both"]
+
+
+def path_text(segs, style):
+    """lead: /a/b   bare: a/b   trail: /a/b/   both: written with a doubled slash, //a//b"""
+    if not segs:
+        return {"lead": "", "bare": "", "trail": "/", "both": "/"}[style]
+    t = "/".join(segs)
+    return {"lead": "/" + t, "bare": t, "trail": "/" + t + "/", "both": "//" + "//".join(segs)}[style]
+
+
+def split_class(idx, d1, d2):
+    if idx is None:
+        return "no-segment"
+    if d1 == d2:
+        return "same-depth"
+    inside = (idx < d1) + (idx < d2)
+    return ["in-both-receivers", "inside-one-prefix", "inside-both-prefixes"][inside]
+
+
+def multi_controller_source(k, ctrls, nfiles=1):
+    """ctrls: [dict(prefix=text or None, methods=[dict(verb, route=text, params=[names declared with @Path])])].
+    Controllers go to c.go, or are spread over c.go / c2.go / c3.go.  Returns (c.go, {other file: text})."""
+    blocks = []
+    for j, c in enumerate(ctrls):
+        head = ["// @Tag(M%dx%d)" % (k, j)]
+        if c["prefix"] is not None:
+            head.append("// @Route(%s)" % c["prefix"])
+        parts = ["\n".join(head) + "\ntype HCtl%dx%d struct {\n\truntime.GleeceController\n}" % (k, j)]
+        for i, m in enumerate(c["methods"]):
+            lines = ["// Op %d of controller %d" % (i, j), "// @Method(%s)" % m["verb"], "// @Route(%s)" % m["route"]]
+            lines += ["// @Path(%s)" % p for p in m["params"]]
+            parts.append("\n".join(lines) + "\nfunc (c *HCtl%dx%d) Op%dx%d(%s) (string, error) {\n\tpanic(\"x\")\n}"
+                         % (k, j, j, i, ", ".join("%s string" % p for p in m["params"])))
+        blocks.append("\n\n".join(parts))
+    if nfiles <= 1 or len(blocks) == 1:
+        return go_file("\n\n".join(blocks), True), {}
+    return go_file(blocks[0], True), dict(("c%d.go" % (j + 1), go_file(b, True)) for j, b in enumerate(blocks) if j > 0)
+
+
+def seg_params(segs):
+    return [s.strip("{}") for s in segs if s.startswith("{") and s.endswith("}")]
+
+
+def mount(full, depth, verb, pstyle, rstyle, declare_prefix_params=True, no_prefix_annotation=False):
+    """One controller that mounts the full path at the given depth."""
+    pre, rest = full[:depth], full[depth:]
+    names = seg_params(rest) + (seg_params(pre) if declare_prefix_params else [])
+    prefix = None if (not pre and no_prefix_annotation) else path_text(pre, pstyle)
+    return {"prefix": prefix, "methods": [{"verb": verb, "route": path_text(rest, rstyle), "params": sorted(set(names), key=names.index)}]}
+
+
+def multi_controller_projects(rng, start, tier):
+    """Projects with 2-3 controllers whose routes meet ACROSS controllers: the same pair of colliding (or duplicate, or
+    unrelated) full paths, each controller mounted at every depth of its path (no @Route at all, one segment, ..., the
+    whole path with an empty receiver route), routes written with and without a leading slash, with a trailing or
+    doubled slash; in one file or one file per controller; sometimes a third controller that repeats one of the two
+    paths with the same or another verb.  The quick tier takes, of every family, the depth pairs of every class
+    (same depth / collision in both receivers' parts / inside one controller's prefix / inside both prefixes, both
+    orientations); the thorough tier takes them all with every slash style."""
+    plan = []
+    for fam, fa, fb, idx in PATH_FAMILIES:
+        combos = [(d1, d2) for d1 in range(len(fa) + 1) for d2 in range(len(fb) + 1)]
+        if tier == "quick":
+            rng.shuffle(combos)
+            seen, kept = {}, []
+            for d1, d2 in combos:
+                cl = (split_class(idx, d1, d2), d1 < d2)
+                if seen.get(cl, 0) < (2 if cl[0] == "inside-one-prefix" else 1):
+                    seen[cl] = seen.get(cl, 0) + 1
+                    kept.append((d1, d2))
+            combos = sorted(kept)
+            styles = [None]
+        else:
+            styles = [None] + [(p, r) for p in ("lead", "bare", "trail", "both") for r in ("lead", "bare", "trail", "both")]
+        plan += [(fam, fa, fb, idx, d1, d2, st) for d1, d2 in combos for st in styles]
+    out = []
+    for fam, fa, fb, idx, d1, d2, st in plan:
+        k = start + len(out)
+        verb = rng.choice(["GET", "GET", "POST", "DELETE"])
+        if st is None:
+            # mostly the canonical spelling; one route in four is written another way
+            sty = [rng.choice(SLASH_STYLES) if rng.random() < 0.25 else "lead" for _ in range(4)]
+        else:
+            sty = [st[0], st[1], st[0], st[1]]
+        decl = rng.random() < 0.8
+        ctrls = [mount(fa, d1, verb, sty[0], sty[1], decl, rng.random() < 0.5),
+                 mount(fb, d2, verb, sty[2], sty[3], decl, rng.random() < 0.5)]
+        third = None
+        if rng.random() < 0.35:
+            f3 = rng.choice([fa, fb])
+            d3 = rng.randrange(len(f3) + 1)
+            third = [d3, rng.choice([verb, verb, "PUT"])]
+            ctrls.append(mount(f3, d3, third[1], rng.choice(SLASH_STYLES), rng.choice(SLASH_STYLES), decl, False))
+        if rng.random() < 0.3:
+            # a second receiver on the first controller: conflicts inside one controller next to those across
+            ctrls[0]["methods"].append({"verb": verb, "route": "/extra/{x}", "params": ["x"]})
+        order = list(range(len(ctrls)))
+        if rng.random() < 0.5:
+            order.reverse()
+        ctrls = [ctrls[i] for i in order]
+        nfiles = rng.choice([1, 1, len(ctrls)])
+        src, files = multi_controller_source(k, ctrls, nfiles)
+        out.append({"source": src, "files": files, "layout": "single", "k": k, "config_kind": "valid",
+                    "multi_controller": {"family": fam, "paths": [fa, fb], "depths": [d1, d2], "colliding_segment": idx,
+                                         "class": split_class(idx, d1, d2), "third": third, "files": nfiles,
+                                         "controllers": ctrls},
+                    "command": rng.choice(COMMANDS[:3]), "force_valid_config": True})
+    return out
+
+
+def template_sweep_projects(rng, start, tier, base):
+    """Every kind of templateExtensions / templateOverrides entry once (thorough: on every engine), on a well-formed
+    project, through the CLI."""
+    out = []
+    kinds = TEMPLATE_KINDS_REJECTED + TEMPLATE_KINDS_ACCEPTED
+    for i, kind in enumerate(kinds):
+        for engine in ([ENGINES[(i + rng.randrange(5)) % 5]] if tier == "quick" else ENGINES):
+            k = start + len(out)
+            conf = json.loads(json.dumps(base))
+            conf["routesConfig"]["engine"] = engine
+            aux = template_config(rng, conf, kind)
+            out.append({"source": plain_source(k), "k": k, "aux": aux, "config": json.dumps(conf, indent=1), "config_kind": "template:" + kind,
+                        "template_kind": [kind, engine], "command": rng.choice([["generate", "routes"], ["generate", "spec-and-routes"]])})
+    return out
+
+
+def shrink_multi_controller(pr, same):
+    """Drop controllers, then receivers, while `same(candidate project)` holds."""
+    mc = pr["multi_controller"]
+    ctrls = mc["controllers"]
+
+    def build(cs):
+        src, files = multi_controller_source(pr["k"], cs, 1)
+        return dict(pr, source=src, files=files, multi_controller=dict(mc, controllers=cs, files=1))
+
+    cur = build(ctrls)
+    if not same(cur):
+        return pr
+    changed = True
+    while changed:
+        changed = False
+        cs = cur["multi_controller"]["controllers"]
+        cands = [cs[:j] + cs[j + 1:] for j in range(len(cs)) if len(cs) > 1]
+        cands += [cs[:j] + [dict(c, methods=c["methods"][:i] + c["methods"][i + 1:])] + cs[j + 1:]
+                  for j, c in enumerate(cs) for i in range(len(c["methods"])) if len(c["methods"]) > 1]
+        for cand in cands:
+            nxt = build(cand)
+            if same(nxt):
+                cur, changed = nxt, True
+                break
+    return cur
+
+
+# ---------------------------------------------------------------- template files of the routes generator
+
+ENGINES = ["gin", "echo", "mux", "chi", "fiber"]
+HOSTILE_TEMPLATES = ["{{#if x}}\n// never closed\n", "{{> NoSuchPartialAnywhere }}\n", "{{{\n", "{{#each}}{{/if}}\n", "{{else}}\n",
+                     "{{> ImportsExtension }}\n", "{{NoSuchHelper 1 2}}\n", "\x00{{", "{{#with}}"]
+TEMPLATE_KINDS_REJECTED = ["ext-unknown", "ext-unreadable", "ext-directory", "ext-mixed", "ext-empty-name", "ovr-unknown",
+                           "ovr-unreadable", "ovr-routes-unreadable", "ext-hostile-template", "ovr-hostile-template",
+                           "routes-hostile-template"]
+TEMPLATE_KINDS_ACCEPTED = ["ext-valid", "ovr-valid", "ovr-routes-valid"]
+
+
+def engine_template(engine, rel):
+    try:
+        return open(os.path.join(REPO, "generator", "templates", engine, rel)).read()
+    except OSError:
+        return "// no such template\n"
+
+
+def template_config(rng, conf, kind):
+    """Adds routesConfig.templateExtensions / templateOverrides entries of the given kind to conf (in place).
+    Returns the auxiliary files {relative path: text} the configuration points at.  The extension points and partials
+    named are those every engine exposes (generator/templates/<engine>/embeds.go)."""
+    rc = conf["routesConfig"]
+    engine = rc.get("engine", "gin")
+    aux = {"tpl/ok.hbs": "// verif: an extension\n"}
+    ext = rng.choice(["ImportsExtension", "RegisterRoutesExtension", "TypeDeclarationsExtension", "JsonResponseExtension"])
+    if kind == "ext-unknown":
+        rc["templateExtensions"] = {rng.choice(["NoSuchExtensionPoint", "importsextension", "Imports", "Routes", "日本"]): "./tpl/ok.hbs"}
+    elif kind == "ext-unreadable":
+        rc["templateExtensions"] = {ext: rng.choice(["./tpl/missing.hbs", "/proc/self/nope/x.hbs", "", "./tpl/a\x00b.hbs"])}
+    elif kind == "ext-directory":
+        rc["templateExtensions"] = {ext: "./tpl"}
+    elif kind == "ext-mixed":
+        rc["templateExtensions"] = {"ImportsExtension": "./tpl/ok.hbs", "NoSuchExtensionPoint": "./tpl/ok.hbs",
+                                    "RouteEndRoutesExtension": "./tpl/missing.hbs"}
+    elif kind == "ext-empty-name":
+        rc["templateExtensions"] = {"": "./tpl/ok.hbs"}
+    elif kind == "ext-valid":
+        rc["templateExtensions"] = {ext: "./tpl/ok.hbs", "RouteStartRoutesExtension": "./tpl/ok.hbs"}
+    elif kind == "ext-hostile-template":
+        aux["tpl/hostile.hbs"] = rng.choice(HOSTILE_TEMPLATES)
+        rc["templateExtensions"] = {ext: "./tpl/hostile.hbs"}
+    elif kind == "ovr-unknown":
+        rc["templateOverrides"] = {rng.choice(["NoSuchPartial", "imports", "ImportsExtension", ""]): "./tpl/ok.hbs"}
+    elif kind == "ovr-unreadable":
+        rc["templateOverrides"] = {"Imports": rng.choice(["./tpl/missing.hbs", "./tpl", ""])}
+    elif kind == "ovr-routes-unreadable":
+        rc["templateOverrides"] = {"Routes": rng.choice(["./tpl/missing.hbs", "./tpl"])}
+    elif kind == "ovr-valid":
+        aux["tpl/imports.hbs"] = engine_template(engine, "partials/imports.hbs")
+        rc["templateOverrides"] = {"Imports": "./tpl/imports.hbs"}
+    elif kind == "ovr-routes-valid":
+        aux["tpl/routes.hbs"] = engine_template(engine, "routes.hbs")
+        rc["templateOverrides"] = {"Routes": "./tpl/routes.hbs"}
+    elif kind == "ovr-hostile-template":
+        aux["tpl/hostile.hbs"] = rng.choice(HOSTILE_TEMPLATES)
+        rc["templateOverrides"] = {rng.choice(["Imports", "JsonResponse", "RequestArgsParsing"]): "./tpl/hostile.hbs"}
+    elif kind == "routes-hostile-template":
+        aux["tpl/hostile.hbs"] = rng.choice(HOSTILE_TEMPLATES)
+        rc["templateOverrides"] = {"Routes": "./tpl/hostile.hbs"}
+    else:
+        raise ValueError(kind)
+    return aux
+
+
+def write_project(root, pr):
+    os.makedirs(os.path.join(root, "hctl"), exist_ok=True)
+    open(os.path.join(root, "hctl", "c.go"), "w").write(pr["source"])
+    for fn, text in sorted((pr.get("files") or {}).items()):
+        open(os.path.join(root, "hctl", os.path.basename(fn)), "w").write(text)
+    for rel, text in sorted((pr.get("aux") or {}).items()):
+        os.makedirs(os.path.dirname(os.path.join(root, rel)), exist_ok=True)
+        open(os.path.join(root, rel), "w").write(text)
+    open(os.path.join(root, "gleece.config.json"), "w").write(pr["config"])
+
+
+# ---------------------------------------------------------------- several generations in ONE process
+
+SEQ_TIMEOUT = 240
+
+
+def step_outputs(st):
+    """The artifacts the run has to leave behind when it reports success: the paths its configuration names."""
+    routes, spec = "dist/routes.go", "dist/spec.json"
+    try:
+        conf = json.loads(st["config"])
+        r = conf["routesConfig"]["outputPath"]
+        if isinstance(r, str) and r:
+            routes = r
+        s_ = conf["openapiGeneratorConfig"]["specGeneratorConfig"]["outputPath"]
+        if isinstance(s_, str) and s_:
+            spec = s_
+    except (ValueError, KeyError, TypeError):
+        pass
+    return {"routes": [routes], "spec": [spec], "spec-and-routes": [spec, routes]}[st["mode"]]
+
+
+def plain_source(k=0):
+    return sweep_file(k, [("string", "required"), ("int", "gte=0")])
+
+
+def seq_step(rng, base, kind, engine, mode=None):
+    """One generation of a sequence: dict(label, source, files, aux, config, mode)."""
+    conf = json.loads(json.dumps(base))
+    conf["routesConfig"]["engine"] = engine
+    conf["openapiGeneratorConfig"]["openapi"] = rng.choice(["3.0.0", "3.1.0"])
+    st = {"label": kind, "source": plain_source(), "files": {}, "aux": {}, "mode": mode or rng.choice(["routes", "spec-and-routes"])}
+    if kind == "valid":
+        pass
+    elif kind == "valid-other-engine":
+        conf["routesConfig"]["engine"] = rng.choice([e for e in ENGINES if e != engine])
+    elif kind in TEMPLATE_KINDS_REJECTED or kind in TEMPLATE_KINDS_ACCEPTED:
+        st["aux"] = template_config(rng, conf, kind)
+    elif kind == "bad-config":
+        text, ck = hostile_config(random.Random(rng.random()), conf)
+        while ck == "valid":
+            text, ck = hostile_config(random.Random(rng.random()), conf)
+        st["config"], st["label"] = text, "bad-config:" + ck
+    elif kind == "hostile-project":
+        ann = rng.choice(MALFORMED_ANN + DOUBLE_ANN)
+        st["source"], st["label"] = annotation_file(0, ann, rng.random() < 0.2, rng.choice(["add", "replace"])), "hostile-project:" + ann
+    elif kind == "multi-controller":
+        pr = rng.choice(multi_controller_projects(random.Random(rng.random()), 0, "quick"))
+        st["source"], st["files"] = pr["source"], pr["files"]
+        st["label"] = "multi-controller:%s:%s" % (pr["multi_controller"]["family"], pr["multi_controller"]["depths"])
+    elif kind == "spec-only":
+        st["mode"] = "spec"
+    else:
+        raise ValueError(kind)
+    st.setdefault("config", json.dumps(conf, indent=1))
+    return st
+
+
+SEQ_REJECTED = TEMPLATE_KINDS_REJECTED + ["bad-config", "hostile-project"]
+SEQ_ACCEPTED = ["valid", "valid", "valid-other-engine", "multi-controller", "spec-only"] + TEMPLATE_KINDS_ACCEPTED
+
+
+def inproc_sequences(rng, base, tier):
+    """Histories of one process: every kind of REJECTED generation as the process's first one, followed by generations
+    that must go through (same engine, another engine, with template files of their own); then random histories that
+    mix accepted and rejected generations.  The engine rotates over the five routers."""
+    seqs = []
+    kinds = list(SEQ_REJECTED)
+    rng.shuffle(kinds)
+    for i, kind in enumerate(kinds):
+        reps = 1 if tier == "quick" else len(ENGINES)
+        for r in range(reps):
+            engine = ENGINES[(i + r) % len(ENGINES)]
+            follow = [rng.choice(SEQ_ACCEPTED) for _ in range(rng.choice([1, 2]))]
+            seqs.append({"engine": engine, "steps": [seq_step(rng, base, kd, engine) for kd in [kind] + follow]})
+    for _ in range(3 if tier == "quick" else 40):
+        engine = rng.choice(ENGINES)
+        ks = [rng.choice(SEQ_ACCEPTED + SEQ_REJECTED + SEQ_REJECTED) for _ in range(rng.randint(3, 5))]
+        seqs.append({"engine": engine, "steps": [seq_step(rng, base, kd, engine) for kd in ks]})
+    return seqs
+
+
+def run_inproc_sequence(moddir, tag, steps):
+    """Runs the steps back to back in one `implrun genseq` process.  Returns one observation per step:
+    dict(timed_out, panicked, error, written, panic, detail)."""
+    root = os.path.join(moddir, "seq_%s" % tag)
+    shutil.rmtree(root, ignore_errors=True)
+    live = os.path.join(root, "live")
+    jobs = []
+    for j, st in enumerate(steps):
+        stage = os.path.join(root, "stage%d" % j)
+        write_project(stage, st)
+        jobs.append({"live": live, "stage": stage, "config": "gleece.config.json", "mode": st["mode"], "outputs": step_outputs(st)})
+    try:
+        results = implrun("genseq", jobs, timeout=SEQ_TIMEOUT)
+    except subprocess.TimeoutExpired:
+        return [{"timed_out": True, "panicked": False, "error": "", "written": False, "panic": "",
+                 "detail": "the process did not finish %d generations within %d s" % (len(steps), SEQ_TIMEOUT)}] * len(steps)
+    except RuntimeError as e:
+        # the whole process died (a panic outside the calling goroutine, a fatal error, os.Exit)
+        return [{"timed_out": False, "panicked": True, "error": "", "written": False, "panic": crash_signature(str(e)) or "process died",
+                 "detail": str(e)[-3000:]}] * len(steps)
+    obs = []
+    for st, r in zip(steps, results):
+        files = r.get("files_b64") or {}
+        obs.append({"timed_out": False, "panicked": bool(r.get("panic")), "error": r.get("error") or "", "panic": r.get("panic") or "",
+                    "written": all(o in files for o in step_outputs(st)), "detail": "", "wall_s": r.get("wall_s")})
+    return obs
+
+
+def shrink_sequence(moddir, steps, bad):
+    """Smallest history that still ends in the same offending run: the run alone, one predecessor + the run, else the
+    prefix up to the run."""
+    def fails(cand):
+        o = run_inproc_sequence(moddir, "shrink", cand)[-1]
+        return o["timed_out"] or o["panicked"] or not (o["error"] or o["written"]), o
+    for cand in [[steps[bad]]] + [[steps[j], steps[bad]] for j in range(bad)]:
+        f, o = fails(cand)
+        if f:
+            return cand, o
+    return steps[:bad + 1], None
+
+
 COMMANDS = [["generate", "spec-and-routes"], ["generate", "spec"], ["generate", "routes"],
             ["dump", "graph", "-f", "dot"], ["dump", "graph", "-f", "plain"]]
 
@@ -499,18 +868,6 @@ def main():
     moddir = os.path.join(WORK, PROP, "mod")
     shutil.rmtree(moddir, ignore_errors=True)
     P.make_module(moddir)
-    projects = []
-    if a.replay:
-        rp = json.load(open(a.replay))
-        projects = [rp["input"]]
-    else:
-        for k in range(nproj):
-            src, files, lay = hostile_file(rng, k)
-            projects.append({"source": src, "files": files, "layout": lay if files else "single", "k": k})
-        projects += sweep_projects(rng, len(projects), a.tier)
-        projects += type_sweep_projects(rng, len(projects), a.tier)
-        projects += annotation_sweep_projects(rng, len(projects), a.tier)
-        projects += param_sweep_projects(rng, len(projects), a.tier)
     base = {
         "commonConfig": {"controllerGlobs": ["./hctl/*.go"]},
         "routesConfig": {"engine": "gin", "outputPath": "./dist/routes.go", "outputFilePerms": "0644", "packageName": "routes",
@@ -520,12 +877,27 @@ def main():
                                    "securitySchemes": [{"description": "d", "name": "sec1", "fieldName": "x-k", "type": "apiKey", "in": "header"}],
                                    "specGeneratorConfig": {"outputPath": "./dist/spec.json"}},
     }
+    projects = []
+    sequences = []
+    if a.replay:
+        rp = json.load(open(a.replay))
+        if "sequence" in rp["input"]:
+            sequences = [{"engine": rp["input"].get("engine"), "steps": rp["input"]["sequence"]}]
+        else:
+            projects = [rp["input"]]
+    else:
+        for k in range(nproj):
+            src, files, lay = hostile_file(rng, k)
+            projects.append({"source": src, "files": files, "layout": lay if files else "single", "k": k})
+        projects += sweep_projects(rng, len(projects), a.tier)
+        projects += type_sweep_projects(rng, len(projects), a.tier)
+        projects += annotation_sweep_projects(rng, len(projects), a.tier)
+        projects += param_sweep_projects(rng, len(projects), a.tier)
+        projects += multi_controller_projects(rng, len(projects), a.tier)
+        projects += template_sweep_projects(rng, len(projects), a.tier, base)
+        sequences = inproc_sequences(rng, base, a.tier)
     for k, pr in enumerate(projects):
         root = os.path.join(moddir, "p%d" % k)
-        os.makedirs(os.path.join(root, "hctl"), exist_ok=True)
-        open(os.path.join(root, "hctl", "c.go"), "w").write(pr["source"])
-        for fn, text in sorted((pr.get("files") or {}).items()):
-            open(os.path.join(root, "hctl", os.path.basename(fn)), "w").write(text)
         if "config" not in pr:
             b = json.loads(json.dumps(base))
             b["routesConfig"]["engine"] = rng.choice(["gin", "echo", "mux", "chi", "fiber"])
@@ -535,7 +907,7 @@ def main():
             else:
                 pr["config"], pr["config_kind"] = hostile_config(rng, b)
                 pr["command"] = rng.choice(COMMANDS)
-        open(os.path.join(root, "gleece.config.json"), "w").write(pr["config"])
+        write_project(root, pr)
     # only projects that load (compile) are in the property's domain
     p = run(["go", "vet", "./..."], cwd=moddir, env=GOENV, check=False, timeout=900)
     bad_pkgs = set(re.findall(r"verifproj/p(\d+)/hctl", p.stderr.decode(errors="replace") + p.stdout.decode(errors="replace")))
@@ -552,7 +924,14 @@ def main():
         idx.append(k)
     jobs.append({"dir": moddir, "args": ["version"], "timeout": TIMEOUT})
     idx.append(-1)
+    # the one-process leg runs next to the CLI runs (its processes are few and long, the CLI's many and short)
+    seq_pool = concurrent.futures.ThreadPoolExecutor(max_workers=6)
+    if sequences:
+        build_harness()
+    seq_futures = [seq_pool.submit(run_inproc_sequence, moddir, str(n), sq["steps"]) for n, sq in enumerate(sequences)]
     results = P.run_cli_many(jobs)
+    seq_obs = [f.result() for f in seq_futures]
+    seq_pool.shutdown()
     classes = {}
     known = known_for(PROP)
     outcomes = []
@@ -563,12 +942,24 @@ def main():
     # the oracle, evaluated in Coq on the observed outcome classes
     rows = ["(%d, %s)" % (i, {"ok": "OOk", "reported-error": "OReported", "crash": "OCrash", "hang": "OHang",
                              "silent-failure": "OSilent"}[c]) for i, (k, c, r) in enumerate(outcomes)]
+    # ... and on every run of every one-process history (classified by Outcome.job_outcome from what was observed)
+    seq_rows = ["(%d, [%s])" % (n, "; ".join("job_outcome %s %s %s %s" % (coq_bool(o["timed_out"]), coq_bool(o["panicked"]),
+                                                                          coq_bool(bool(o["error"])), coq_bool(o["written"]))
+                                             for o in obs)) for n, obs in enumerate(seq_obs)]
     body = ("From Gleece Require Import Base.Bytes Model.Outcome.\n"
             "Definition cases : list (nat * outcome) := [" + "; ".join(rows) + "].\n"
             "Definition propfail := Eval vm_compute in map fst (filter (fun c => negb (prop_C14 (snd c))) cases).\n"
-            "Print propfail.\n")
+            "Print propfail.\n"
+            "Definition histories : list (nat * list outcome) := [" + "; ".join(seq_rows) + "].\n"
+            "Definition seqfail := Eval vm_compute in map fst (filter (fun c => negb (prop_C14_seq (snd c))) histories).\n"
+            "Print seqfail.\n"
+            "Fixpoint first_bad (os : list outcome) : nat := match os with [] => 0 | o :: r => if prop_C14 o then S (first_bad r) else 0 end.\n"
+            "Definition seqbad := Eval vm_compute in map (fun c => first_bad (snd c)) (filter (fun c => negb (prop_C14_seq (snd c))) histories).\n"
+            "Print seqbad.\n")
     out = run_coq_file(PROP, "cases", body)
     propfail = parse_nat_list(out, "propfail")
+    seqfail = parse_nat_list(out, "seqfail")
+    seqbad = parse_nat_list(out, "seqbad")
     reported = 0
 
     def size(i):
@@ -620,14 +1011,75 @@ def main():
                     r = r1
                     sig = crash_signature(r["out"])
                     break
+        if pr.get("multi_controller") and c in ("crash", "silent-failure", "hang"):
+            # shrink: drop controllers and receivers while the outcome class and signature stay
+            last = {}
+
+            def same(cand, c=c, sig=sig, pr=pr):
+                d = os.path.join(moddir, "shrink")
+                shutil.rmtree(d, ignore_errors=True)
+                write_project(d, cand)
+                r1 = P.run_cli_one({"dir": d, "args": pr["command"] + ["-c", "gleece.config.json"], "timeout": TIMEOUT})
+                ok = classify(r1) == c and crash_signature(r1["out"]) == sig
+                if ok:
+                    last["r"] = r1
+                return ok
+            pr = shrink_multi_controller(pr, same)
+            r = last.get("r", r)
         res.violation({"kind": "property-fails-on-implementation", "class": c, "signature": sig,
-                       "input": {"source": pr["source"], "files": pr.get("files") or {}, "config": pr["config"],
-                                 "command": pr["command"]},
-                       "shape": dict((f, pr[f]) for f in ("layout", "single_use", "single_annotation", "param_sweep") if f in pr),
+                       "input": {"source": pr["source"], "files": pr.get("files") or {}, "aux": pr.get("aux") or {},
+                                 "config": pr["config"], "command": pr["command"]},
+                       "shape": dict((f, pr[f]) for f in ("layout", "single_use", "single_annotation", "param_sweep",
+                                                          "multi_controller", "template_kind") if f in pr),
                        "cli_exit": r["exit"], "cli_output": r["out"][-3000:], "wall_s": r["wall"],
                        "claim": "the command exits 0 or exits non-zero with a message; it never panics or hangs"})
+    seq_reported = 0
+    for n, bad in zip(seqfail, seqbad):
+        steps, obs = sequences[n]["steps"], seq_obs[n]
+        o = obs[bad]
+        c = "hang" if o["timed_out"] else "crash" if o["panicked"] else "silent-failure"
+        sig = o["panic"] or o["detail"][-200:] or "no error and no artifact"
+        hit = None
+        for f in known:
+            if f.get("match", {}).get("signature") and f["match"]["signature"] in sig:
+                hit = f
+        if hit:
+            res.known(hit, "%s (%s)" % (hit.get("title", ""), sig[:120]))
+            continue
+        if seq_reported >= 2:
+            continue
+        seq_reported += 1
+        history, o1 = (steps[:bad + 1], None) if a.replay else shrink_sequence(moddir, steps, bad)
+        o = o1 or o
+        res.violation({"kind": "property-fails-on-implementation", "leg": "several generations in one process (implrun genseq)",
+                       "class": c, "signature": o["panic"] or sig,
+                       "input": {"engine": sequences[n].get("engine"), "sequence": history},
+                       "history": [st["label"] + " / " + st["mode"] for st in history],
+                       "observed": {"panic": o["panic"], "error": o["error"][-1500:], "artifacts_written": o["written"],
+                                    "timed_out": o["timed_out"], "detail": o["detail"]},
+                       "earlier_runs": [{"label": st["label"], "error": ob["error"][-300:], "panic": ob["panic"], "artifacts_written": ob["written"]}
+                                        for st, ob in zip(steps[:bad], obs[:bad])],
+                       "claim": "every generation of a process returns nil after writing its artifacts or returns an error; "
+                                "it never panics or hangs, whatever the earlier generations of the process were"})
+    seq_classes = {}
+    for obs in seq_obs:
+        for o in obs:
+            cl = "hang" if o["timed_out"] else "crash" if o["panicked"] else "reported-error" if o["error"] else "ok" if o["written"] else "silent-failure"
+            seq_classes[cl] = seq_classes.get(cl, 0) + 1
     res.coverage.update({
-        "evaluations": len(jobs), "distinct_nontrivial": len(set(projects[k]["source"] + json.dumps(projects[k].get("files") or {}, sort_keys=True)
+        "one_process_histories": {"histories": len(sequences), "runs": sum(len(o) for o in seq_obs), "outcome_classes": seq_classes,
+                                  "oracle_failures": len(seqfail),
+                                  "first_runs": sorted(set(sq["steps"][0]["label"].split(":")[0] for sq in sequences)),
+                                  "sample": [[st["label"], st["mode"],
+                                              "panic" if ob["panicked"] else "error" if ob["error"] else "ok"]
+                                             for st, ob in zip(sequences[0]["steps"], seq_obs[0])] if sequences else []},
+        "multi_controller_classes": {cl: sum(1 for pr in projects if (pr.get("multi_controller") or {}).get("class") == cl)
+                                     for cl in set((pr.get("multi_controller") or {}).get("class") for pr in projects) if cl},
+        "multi_controller_outcomes": {cl: sum(1 for k, c, r in outcomes if k >= 0 and projects[k].get("multi_controller") and c == cl)
+                                      for cl in classes},
+        "template_entry_outcomes": dict((projects[k]["template_kind"][0], c) for k, c, r in outcomes
+                                        if k >= 0 and projects[k].get("template_kind")),
+        "evaluations": len(jobs) + sum(len(o) for o in seq_obs), "distinct_nontrivial": len(set(projects[k]["source"] + json.dumps(projects[k].get("files") or {}, sort_keys=True)
                                                                 for k in idx if k >= 0)),
         "rule": "seeded hostile but compilable projects (generics with declared arguments, inline structs, funcs, "
                 "channels, interfaces, fixed arrays, non-string map keys, mutually and self recursive types, enums of "
@@ -636,7 +1088,13 @@ def main():
                 "the package laid out in one file, in controller + declarations, or one file per declaration; malformed "
                 "and doubly-wrong annotation lines added to or replacing the annotation of the same name, "
                 "arbitrary validator tags and hostile configuration documents; one CLI command each (spec, routes, "
-                "spec-and-routes, dump graph dot/plain, version) with a %d s limit; distinct = distinct sources" % TIMEOUT,
+                "spec-and-routes, dump graph dot/plain, version) with a %d s limit; distinct = distinct sources; "
+                "projects of 2-3 controllers whose routes collide / coincide / are unrelated ACROSS controllers mounted "
+                "at every pair of depths (no @Route .. the whole path), with leading / missing / trailing / doubled "
+                "slashes, in one file or one per controller; templateExtensions / templateOverrides entries of every "
+                "kind (unknown name, unreadable file, directory, hostile template text, valid); and histories of ONE "
+                "process (implrun genseq): every kind of rejected generation first, then generations that go through, "
+                "plus random mixes, over the five engines - Outcome.prop_C14_seq on every history" % TIMEOUT,
         "samples": [{"command": projects[idx[0]]["command"], "config_kind": projects[idx[0]].get("config_kind"),
                      "source": projects[idx[0]]["source"][:1500], "class": outcomes[0][1]}] if idx and idx[0] >= 0 else [],
         "property_oracle_failures": len(propfail),
